@@ -356,10 +356,13 @@ PLANS["C07"] = P(
      {"driver": "rich", "args": {"n": 400, "depth": 6, "arbsel": 0.7, "xfmt": 1}},
      # validly SIGNED but wrong inputs reach code that garbage never reaches (a KB-JWT signed by the holder key that lacks a claim,
      # tokens re-signed under other keys / kids): the tampering families, here only for the `total` clause
-     {"driver": "attack", "args": {"n": 9, "family": "all", "stride": 40}}],
+     {"driver": "attack", "args": {"n": 9, "family": "all", "stride": 40}},
+     # instants around the leeway and the window's edge (arithmetic on exp / nbf / now in code that runs after validation)
+     {"driver": "rich", "args": {"n": 250, "depth": 2, "arbsel": 0, "time": 1}}],
     [{"driver": "fuzz", "args": {"n": 2500}}, {"driver": "replay", "scn": "MC_malformed", "args": {"n": 100000, "matrix": 0}},
      {"driver": "rich", "args": {"n": 8000, "depth": 7, "arbsel": 0.7, "xfmt": 1}},
-     {"driver": "attack", "args": {"n": 36, "family": "all", "stride": 6}}],
+     {"driver": "attack", "args": {"n": 36, "family": "all", "stride": 6}},
+     {"driver": "rich", "args": {"n": 5000, "depth": 3, "arbsel": 0, "time": 1}}],
     required={"total": 20000},
     nontrivial_event="Call",
     rule="cases = calls of the four public entry points: random byte / ASCII / envelope-shaped strings (<= 2 KB) in both formats; structural mutations of valid SD-JWTs (parts dropped, "
